@@ -177,45 +177,75 @@ def module_maps(run, data):
     run.floor("T5", "map entries", n, 2000)
 
 
+def _loop_over(cfg, pred):
+    """for-loops of the function whose (inlined, iter()-stripped) iterable
+    satisfies pred(text)."""
+    out = []
+    for n in cfg.nodes:
+        if n.kind != "foriter":
+            continue
+        it = n.ast.iter
+        while isinstance(it, ast.Call) and call_name(it) == "iter" and \
+                len(it.args) == 1:
+            it = it.args[0]
+        t = cfg.itext(it, n.id)
+        if pred(t):
+            out.append(n)
+    return out
+
+
+def _value_guards(cfg, nid, names):
+    """Canonical guard facts of node nid that mention one of `names`."""
+    out = set()
+    for e, p, _ in cfg.guards(nid):
+        if {x.id for x in ast.walk(e) if isinstance(x, ast.Name)} & set(names):
+            out.add((" ".join(unparse(e).split()), p))
+    return out
+
+
 def engine_channels(run):
     run.rule("E1", "reader: harvest_element_tree consumes children, attributes "
              "and text; unknown children/attributes fall back to the extension "
              "container")
     run.rule("E2", "writer: _add_members_to_element_tree emits every child "
-             "member (in order), every declared attribute, and then the "
-             "extension children/attributes/text")
+             "member (in order), every declared attribute that is set (also to "
+             "an empty value), and then the extension children/attributes/text")
     run.rule("E3", "reader and writer use the same table entries for the same "
              "channel")
     m = run.model
     h = m.func("ExtensionContainer.harvest_element_tree")
-    calls = {call_name(c) for c in ast.walk(h.node) if isinstance(c, ast.Call)}
-    loops = [unparse(l.iter) for l in walk_no_nested(h.node)
-             if isinstance(l, ast.For)]
-    text = [s for s in walk_no_nested(h.node) if isinstance(s, ast.Assign) and
-            attr_chain(s.targets[0]) == "self.text" and
-            unparse(s.value) == "tree.text"]
-    run.check("_convert_element_tree_to_member" in calls and "tree" in loops,
-              "E1", h.qual + "::children", "iterates all child elements",
+    hcfg = cfg_of(h, m)
+    kids = [nd for nd, c in hcfg.call_nodes("_convert_element_tree_to_member")]
+    ok = bool(kids) and bool(_loop_over(hcfg, lambda t: t == "tree")) and \
+        not _value_guards(hcfg, kids[0].id, h.params())
+    run.check(ok, "E1", h.qual + "::children", "iterates all child elements",
               "children are no longer all converted", h.loc())
-    run.check("_convert_element_attribute_to_member" in calls and
-              any("tree.attrib" in l for l in loops), "E1",
-              h.qual + "::attributes", "iterates all XML attributes",
+    atts = [nd for nd, c in
+            hcfg.call_nodes("_convert_element_attribute_to_member")]
+    ok = bool(atts) and bool(_loop_over(
+        hcfg, lambda t: t in ("tree.attrib.items()", "tree.items()"))) and \
+        not _value_guards(hcfg, atts[0].id, h.params())
+    run.check(ok, "E1", h.qual + "::attributes", "iterates all XML attributes",
               "attributes are no longer all converted", h.loc())
+    text = [nd for nd in hcfg.by_kind("stmt") if isinstance(nd.ast, ast.Assign)
+            and attr_chain(nd.ast.targets[0]) == "self.text" and
+            hcfg.itext(nd.ast.value, nd.id) == "tree.text" and
+            not hcfg.guards(nd.id)]
     run.check(len(text) == 1, "E1", h.qual + "::text", "text is kept",
-              "element text is no longer read", h.loc())
+              "element text is no longer read (unconditionally)", h.loc())
     # SamlBase reader: known -> member, else -> ExtensionContainer version
-    for meth, table in (("_convert_element_tree_to_member", "c_children"),
-                        ("_convert_element_attribute_to_member",
-                         "c_attributes")):
+    for meth, table, key in (
+            ("_convert_element_tree_to_member", "c_children", "child_tree.tag"),
+            ("_convert_element_attribute_to_member", "c_attributes",
+             "attribute")):
         fi = m.func("SamlBase." + meth)
         cfg = cfg_of(fi, m)
+        member = Q("%s in self.__class__.%s" % (key, table))
         fb = [nd for nd, c in cfg.call_nodes(meth)
-              if attr_chain(c.func) == "ExtensionContainer." + meth]
-        ok = len(fb) == 1
-        if ok:
-            gs = facts(cfg, fb[0].id)
-            ok = any(("self.__class__.%s" % table) in g and " in " in g and
-                     p is False for g, p in gs)
+              if attr_chain(c.func) in ("ExtensionContainer." + meth,
+                                        "super()." + meth)
+              or attr_chain(c.func).endswith(")." + meth)]
+        ok = len(fb) == 1 and (member[0], False) in facts(cfg, fb[0].id, True)
         run.check(ok, "E1", fi.qual + "::unknown=>extension",
                   "content not in %s goes to the extension container" % table,
                   "unknown content is dropped instead of being kept as "
@@ -223,43 +253,77 @@ def engine_channels(run):
         sets = cfg.call_nodes("setattr")
         ok = bool(sets)
         for nd, c in sets:
-            gs = facts(cfg, nd.id)
-            ok = ok and any(("self.__class__.%s" % table) in g and p
-                            for g, p in gs)
+            ok = ok and member in facts(cfg, nd.id, True)
         run.check(ok, "E1", fi.qual + "::known=>member",
                   "known content is stored on the member named by the table",
                   "member assignment no longer guarded by table membership",
                   fi.loc())
     fi = m.func("SamlBase._convert_element_tree_to_member")
-    src = unparse(fi.node)
-    run.check("self.__class__.c_children[child_tree.tag][0]" in src and
-              "self.__class__.c_children[child_tree.tag][1]" in src, "E3",
-              fi.qual + "::table-entry", "member name = entry[0], class = "
-              "entry[1] of the tag's entry", "reader indexes the table "
-              "differently", fi.loc())
-    run.check("create_class_from_element_tree(member_class[0], child_tree)"
-              in src and "create_class_from_element_tree(member_class, "
-              "child_tree)" in src, "E3", fi.qual + "::child-class",
-              "children are built with the class from the table",
-              "child construction changed", fi.loc())
+    cfg = cfg_of(fi, m)
+    entry = "self.__class__.c_children[child_tree.tag]"
+    name = "%s[0]" % entry
+    stores = [cfg.itext(arg_of(c, 1), nd.id) for nd, c in
+              cfg.call_nodes("setattr")] + \
+        [cfg.itext(arg_of(c, 1), nd.id) for nd, c in cfg.call_nodes("getattr")]
+    run.check(stores and set(stores) == {name}, "E3",
+              fi.qual + "::table-entry", "member name = entry[0] of the tag's "
+              "entry", "reader stores children under %s" % sorted(set(stores)),
+              fi.loc())
+    built = sorted({cfg.itext(arg_of(c, 0), nd.id) for nd, c in
+                    cfg.call_nodes("create_class_from_element_tree")})
+    targ = {cfg.itext(arg_of(c, 1), nd.id) for nd, c in
+            cfg.call_nodes("create_class_from_element_tree")}
+    run.check(built == sorted(["%s[1]" % entry, "%s[1][0]" % entry]) and
+              targ == {"child_tree"}, "E3", fi.qual + "::child-class",
+              "children are built with the class from the table (entry[1], or "
+              "its element for list members)",
+              "children are built from %s over %s" % (built, sorted(targ)),
+              fi.loc())
     fa = m.func("SamlBase._convert_element_attribute_to_member")
-    run.check("setattr(self, self.__class__.c_attributes[attribute][0], value)"
-              in unparse(fa.node), "E3", fa.qual + "::table-entry",
-              "attribute stored under entry[0]", "attribute reader changed",
-              fa.loc())
+    acfg = cfg_of(fa, m)
+    st = [(acfg.itext(arg_of(c, 1), nd.id), acfg.itext(arg_of(c, 2), nd.id))
+          for nd, c in acfg.call_nodes("setattr")]
+    run.check(st == [("self.__class__.c_attributes[attribute][0]", "value")],
+              "E3", fa.qual + "::table-entry",
+              "attribute stored under entry[0]", "attribute reader stores %s"
+              % st, fa.loc())
     # writer
     w = m.func("SamlBase._add_members_to_element_tree")
-    wsrc = unparse(w.node)
-    loops = [unparse(l.iter) for l in walk_no_nested(w.node)
-             if isinstance(l, ast.For)]
-    run.check("self._get_all_c_children_with_order()" in loops, "E2",
-              w.qual + "::children", "iterates all child members in order",
+    cfg = cfg_of(w, m)
+    cl = _loop_over(cfg, lambda t: t == "self._get_all_c_children_with_order()")
+    run.check(len(cl) == 1, "E2", w.qual + "::children",
+              "iterates all child members in order",
               "writer no longer iterates _get_all_c_children_with_order()",
               w.loc())
-    run.check(any("self.__class__.c_attributes.items()" in l for l in loops) and
-              "tree.attrib[xml_attribute] = member" in wsrc, "E2",
-              w.qual + "::attributes", "emits every declared attribute that is "
-              "set, under its XML name", "attribute writer changed", w.loc())
+    al = _loop_over(cfg, lambda t: t in ("self.__class__.c_attributes.items()",
+                                         "self.c_attributes.items()"))
+    wr = [nd for nd in cfg.by_kind("stmt") if isinstance(nd.ast, ast.Assign) and
+          isinstance(nd.ast.targets[0], ast.Subscript) and
+          attr_chain(nd.ast.targets[0].value) == "tree.attrib" and
+          nd.id not in {x.id for x, _ in cfg.call_nodes(
+              "_add_members_to_element_tree")}]
+    ok = len(al) == 1 and len(wr) == 1
+    run.check(ok, "E2", w.qual + "::attributes", "one loop over the declared "
+              "attributes writing tree.attrib", "attribute writer changed",
+              w.loc())
+    if ok:
+        nd = wr[0]
+        vnames = {x.id for x in ast.walk(nd.ast.value)
+                  if isinstance(x, ast.Name)}
+        vg = _value_guards(cfg, nd.id, vnames)
+        v = unparse(nd.ast.value)
+        run.check(vg == {Q("%s is None" % v, False)}, "E2",
+                  w.qual + "::attribute-set=>written",
+                  "a declared attribute is written whenever it is not None "
+                  "(an empty string is a value)",
+                  "the attribute is written only under %s: a value that is "
+                  "set can be dropped" % sorted(vg), w.loc(nd.ast))
+        kt = cfg.itext(nd.ast.targets[0].slice, nd.id)
+        vt = cfg.itext(nd.ast.value, nd.id)
+        run.check(vt.startswith("getattr(self, "), "E2",
+                  w.qual + "::attribute-value",
+                  "the value written is the member's", "the value written is "
+                  "%s (key %s)" % (vt, kt), w.loc(nd.ast))
     ext = [c for c in calls_named(w.node, "_add_members_to_element_tree")
            if attr_chain(c.func) ==
            "ExtensionContainer._add_members_to_element_tree"]
@@ -268,35 +332,56 @@ def engine_channels(run):
               "then emits the extension content",
               "extension elements/attributes/text are no longer written",
               w.loc())
-    cfg = cfg_of(w, m)
     bc = [nd for nd, c in cfg.call_nodes("become_child_element_of")]
     run.check(len(bc) == 2, "E2", w.qual + "::list-and-single",
               "list members and single members are both emitted",
               "%d emission sites" % len(bc), w.loc())
     ew = m.func("ExtensionContainer._add_members_to_element_tree")
-    esrc = unparse(ew.node)
-    run.check("child.become_child_element_of(tree)" in esrc and
-              "tree.attrib[attribute] = value" in esrc and
-              "tree.text = self.text" in esrc, "E2", ew.qual + "::channels",
+    ecfg = cfg_of(ew, m)
+    ch = [nd for nd, c in ecfg.call_nodes("become_child_element_of")
+          if unparse(arg_of(c, 0)) == "tree"]
+    at = [nd for nd in ecfg.by_kind("stmt") if isinstance(nd.ast, ast.Assign)
+          and isinstance(nd.ast.targets[0], ast.Subscript) and
+          attr_chain(nd.ast.targets[0].value) == "tree.attrib"]
+    tx = [nd for nd in ecfg.by_kind("stmt") if isinstance(nd.ast, ast.Assign)
+          and attr_chain(nd.ast.targets[0]) == "tree.text" and
+          ecfg.itext(nd.ast.value, nd.id) == "self.text"]
+    run.check(ch and at and tx and
+              _loop_over(ecfg, lambda t: t == "self.extension_elements") and
+              _loop_over(ecfg, lambda t: t ==
+                         "self.extension_attributes.items()"), "E2",
+              ew.qual + "::channels",
               "extension children, extension attributes and text are written",
               "an extension channel is no longer written", ew.loc())
     g = m.func("SamlBase._get_all_c_children_with_order")
-    gsrc = unparse(g.node)
-    run.check("self.c_child_order" in gsrc and
-              "self.__class__.c_children.items()" in gsrc and
-              "yield values[0]" in gsrc, "E2", g.qual,
-              "order list, else all table members", "ordering helper changed",
-              g.loc())
+    gcfg = cfg_of(g, m)
+    ys = sorted({gcfg.itext(y.value, n.id) for n in gcfg.nodes
+                 if n.kind not in ("true", "false", "exc")
+                 for r in gcfg.own_exprs(n) for y in ast.walk(r)
+                 if isinstance(y, ast.Yield) and y.value is not None})
+    run.check(len(ys) == 2 and
+              bool(_loop_over(gcfg, lambda t: t in ("self.c_child_order",
+                                                    "self.__class__.c_child_order")))
+              and bool(_loop_over(gcfg, lambda t: t in (
+                  "self.__class__.c_children.items()",
+                  "self.c_children.items()",
+                  "self.__class__.c_children.values()",
+                  "self.c_children.values()"))), "E2", g.qual,
+              "order list, else all table members", "ordering helper changed: "
+              "yields %s" % ys, g.loc())
     t = m.func("SamlBase._to_element_tree")
-    run.check("'{%s}%s' % (self.__class__.c_namespace, self.__class__.c_tag)"
-              in unparse(t.node), "E3", t.qual + "::own-tag",
+    tcfg = cfg_of(t, m)
+    run.check(tcfg.computes("'{%s}%s' % (self.__class__.c_namespace, "
+                            "self.__class__.c_tag)"), "E3", t.qual + "::own-tag",
               "an element is written under its class's own {ns}tag",
               "element tag no longer built from c_namespace/c_tag", t.loc())
     c = m.func("create_class_from_element_tree")
-    run.check("tree.tag == '{%s}%s' % (namespace, tag)" in unparse(c.node) and
-              "target.harvest_element_tree(tree)" in unparse(c.node), "E3",
-              c.qual + "::own-tag", "an element is read by the class with the "
-              "same {ns}tag", "root tag test changed", c.loc())
+    ccfg = cfg_of(c, m)
+    hv = [nd for nd, cc in ccfg.call_nodes("harvest_element_tree")]
+    ok = len(hv) == 1 and Q("tree.tag == '{%s}%s' % (namespace, tag)") in \
+        facts(ccfg, hv[0].id, True)
+    run.check(ok, "E3", c.qual + "::own-tag", "an element is read by the class "
+              "with the same {ns}tag", "root tag test changed", c.loc())
 
 
 def check(run):
